@@ -6,6 +6,7 @@ import (
 	"encoding/json"
 	"errors"
 	"fmt"
+	"runtime"
 	"sort"
 	"strings"
 	"sync"
@@ -33,6 +34,12 @@ type Node struct {
 	// Stillborn: a leaf spawned with MaxRestarts 0 that panics in its Started handler, so it is
 	// already gone when SpawnChild returns
 	Stillborn bool `json:"stillborn,omitempty"`
+	// DupSpawn: after the tree is built the parent spawns a child under this node's kind and id a
+	// second time.  Nothing may change: the producer must not run, the live child stays listed.
+	DupSpawn bool `json:"dup_spawn,omitempty"`
+	// SlowStop: the Stopped handler yields this many times before it returns (widens the window in
+	// which the node is unregistered but has not finished handling Stopped)
+	SlowStop int `json:"slow_stop,omitempty"`
 	// CtxCancelled: the node is spawned WithContext(ctx) and ctx is cancelled already.  The spawn
 	// context is user data; it must not influence how the tree is taken down.
 	CtxCancelled bool `json:"ctx_cancelled,omitempty"`
@@ -109,6 +116,9 @@ func (h *harness) receive(i int, c *actor.Context) {
 			if p := c.GetPID(h.idOf(d)); p != nil {
 				left = append(left, h.idOf(d))
 			}
+		}
+		for k := 0; k < h.c.Nodes[i].SlowStop; k++ {
+			runtime.Gosched()
 		}
 		h.mu.Lock()
 		n.stamp = h.seq.Add(1)
@@ -300,6 +310,35 @@ func run(c TCase) (map[string]int, error) {
 	}
 	if err := checkChildren("after the tree was built"); err != nil {
 		return nil, err
+	}
+	// ---- duplicate SpawnChild over live children: changes nothing
+	for i, nd := range c.Nodes {
+		if !nd.DupSpawn || i == 0 || !alive[i] || !alive[nd.Parent] {
+			continue
+		}
+		ran := make(chan struct{}, 1)
+		done := make(chan *actor.PID, 1)
+		k := i
+		e.Send(h.nodes[nd.Parent].pid, func(pc *actor.Context) {
+			done <- pc.SpawnChild(func() actor.Receiver {
+				ran <- struct{}{}
+				return recv(func(*actor.Context) {})
+			}, "n", actor.WithID(fmt.Sprint(k)))
+		})
+		select {
+		case <-done:
+		case <-time.After(wait):
+			return nil, fmt.Errorf("%w: parent of node %d did not answer the duplicate SpawnChild", errInconclusive, i)
+		}
+		select {
+		case <-ran:
+			return nil, fmt.Errorf("a second SpawnChild under the id of the live child %s ran its Producer", h.idOf(i))
+		default:
+		}
+		feat["duplicate-SpawnChild-over-a-live-child"]++
+		if err := checkChildren(fmt.Sprintf("after a duplicate SpawnChild under the id of %s", h.idOf(i))); err != nil {
+			return nil, err
+		}
 	}
 	// ---- third parties stop some subtrees first, awaited
 	for pi, p := range c.Pre {
@@ -566,6 +605,8 @@ func gen(t *rapid.T) TCase {
 			continue
 		}
 		c.Nodes[i].CtxCancelled = rapid.IntRange(0, 3).Draw(t, "ctx") == 0
+		c.Nodes[i].DupSpawn = i > 0 && rapid.IntRange(0, 5).Draw(t, "dup") == 0
+		c.Nodes[i].SlowStop = rapid.SampledFrom([]int{0, 0, 0, 1, 10, 200}).Draw(t, "slow")
 		if rapid.IntRange(0, 2).Draw(t, "busy") == 0 {
 			c.Nodes[i].Busy = true
 			c.Nodes[i].Queue = rapid.IntRange(0, 5).Draw(t, "queue")
